@@ -724,6 +724,199 @@ Proof.
   intros [c v] Hin. cbn [fst snd]. rewrite (scores_of_unique _ c v Hnd Hin). apply close_refl. reflexivity.
 Qed.
 
+(* ---------- NaN cells ---------- *)
+Lemma some_cells_fst l : map fst (some_cells l) = map fst l.
+Proof. unfold some_cells. rewrite map_map. reflexivity. Qed.
+Lemma nan_cells_fst l : map fst (nan_cells l) = map fst l.
+Proof. unfold nan_cells. rewrite map_map. reflexivity. Qed.
+
+Lemma singles_cells_fst heur lbl T : map fst (singles_cells heur lbl T) = map fst (pre lbl T).
+Proof.
+  unfold singles_cells. destruct (nan_table heur lbl T); [apply nan_cells_fst|].
+  rewrite some_cells_fst. apply singles_fst.
+Qed.
+
+Theorem cells_once heur lbl T :
+  NoDup (map fst (singles_cells heur lbl T)) /\
+  forall f, In f (map fst (singles_cells heur lbl T)) <-> exists t s, In t T /\ label_partner lbl t = Some (f, s).
+Proof. rewrite singles_cells_fst, <- (singles_fst heur). apply singles_once. Qed.
+
+Lemma nan_table_true heur lbl T : nan_table heur lbl T = true <->
+  has_MI heur = true /\ pre lbl T <> [] /\ qmin (map snd (pre lbl T)) == qmax (map snd (pre lbl T)).
+Proof.
+  unfold nan_table. rewrite andb_true_iff, degenerate_iff. split.
+  - intros [H [Hne He]]. repeat split; try assumption. intros E. rewrite E in Hne. apply Hne. reflexivity.
+  - intros [H [Hne He]]. repeat split; try assumption. intros E. apply map_eq_nil in E. contradiction.
+Qed.
+
+Lemma nan_table_false_lt heur lbl T : nan_table heur lbl T = false -> has_MI heur = true -> pre lbl T <> [] ->
+  qmin (map snd (pre lbl T)) < qmax (map snd (pre lbl T)).
+Proof.
+  intros Hn HMI Hne.
+  assert (Hne' : map snd (pre lbl T) <> []) by (intros E; apply map_eq_nil in E; contradiction).
+  destruct (Qlt_le_dec (qmin (map snd (pre lbl T))) (qmax (map snd (pre lbl T)))) as [H|H]; [exact H|].
+  exfalso. assert (Ht : nan_table heur lbl T = true); [|congruence].
+  apply nan_table_true. repeat split; try assumption. apply Qle_antisym; [apply qmin_le_qmax; exact Hne'|exact H].
+Qed.
+
+Lemma in_some_cells l f c : In (f, c) (some_cells l) <-> exists v, c = Some v /\ In (f, v) l.
+Proof.
+  unfold some_cells. rewrite in_map_iff. split.
+  - intros [[g v] [Heq Hin]]. cbn in Heq. injection Heq as <- <-. exists v. auto.
+  - intros [v [-> Hin]]. exists (f, v). auto.
+Qed.
+Lemma in_nan_cells l f c : In (f, c) (nan_cells l) <-> c = None /\ In f (map fst l).
+Proof.
+  unfold nan_cells. rewrite !in_map_iff. split.
+  - intros [[g v] [Heq Hin]]. cbn in Heq. injection Heq as <- <-. split; [reflexivity|]. exists (g, v). auto.
+  - intros [-> [[g v] [Hg Hin]]]. cbn in Hg. subst g. exists (f, v). auto.
+Qed.
+
+(* a numeric cell: the table is not the NaN table, and under an MI heuristic min < max — the value is what C18_median says for
+   the right reason *)
+Theorem cells_some heur lbl T f v : In (f, Some v) (singles_cells heur lbl T) ->
+  nan_table heur lbl T = false /\ In (f, v) (singles heur lbl T) /\
+  (has_MI heur = true -> qmin (map snd (pre lbl T)) < qmax (map snd (pre lbl T))).
+Proof.
+  unfold singles_cells. destruct (nan_table heur lbl T) eqn:En.
+  - intros H. apply in_nan_cells in H. destruct H; discriminate.
+  - intros H. apply in_some_cells in H. destruct H as [w [Hw Hin]]. injection Hw as <-.
+    split; [reflexivity|]. split; [exact Hin|]. intros HMI. apply (nan_table_false_lt heur lbl T En HMI).
+    intros E. assert (Hf : In f (map fst (singles heur lbl T))) by (apply in_map_iff; exists (f, v); auto).
+    rewrite singles_fst, E in Hf. destruct Hf.
+Qed.
+
+Theorem cells_median heur lbl T f v : In (f, Some v) (singles_cells heur lbl T) ->
+  let m := qmedian (label_scores lbl T f) in
+  let lo := qmin (map snd (pre lbl T)) in
+  let hi := qmax (map snd (pre lbl T)) in
+  (has_MI heur = true -> lo < hi) /\
+  v = if has_MI heur then minmax lo hi m else m.
+Proof.
+  intros H. apply cells_some in H. destruct H as [_ [Hin Hlt]]. split; [exact Hlt|]. apply singles_median. exact Hin.
+Qed.
+
+(* a NaN cell: MI heuristic and all medians coincide (in particular: a single listed feature) *)
+Theorem cells_none heur lbl T f : In (f, None) (singles_cells heur lbl T) ->
+  has_MI heur = true /\ (forall g w, In (g, w) (pre lbl T) -> w == qmin (map snd (pre lbl T))) /\
+  (forall g c, In (g, c) (singles_cells heur lbl T) -> c = None).
+Proof.
+  unfold singles_cells. destruct (nan_table heur lbl T) eqn:En.
+  - intros _. apply nan_table_true in En. destruct En as [HMI [Hne He]]. split; [exact HMI|]. split.
+    + intros g w Hin. assert (Hw : In w (map snd (pre lbl T))) by (apply in_map_iff; exists (g, w); auto).
+      apply Qle_antisym; [rewrite He; apply qmax_ge; exact Hw|apply qmin_le; exact Hw].
+    + intros g c Hin. apply in_nan_cells in Hin. apply Hin.
+  - intros H. apply in_some_cells in H. destruct H as [w [Hw _]]. discriminate.
+Qed.
+
+Theorem cells_sorted heur lbl T : nan_table heur lbl T = false ->
+  singles_cells heur lbl T = some_cells (singles heur lbl T) /\ StronglySorted ge_snd (singles heur lbl T) /\
+  (has_MI heur = true -> pre lbl T <> [] -> qmin (map snd (pre lbl T)) < qmax (map snd (pre lbl T))).
+Proof.
+  intros En. unfold singles_cells. rewrite En. split; [reflexivity|]. split; [apply singles_sorted|].
+  apply nan_table_false_lt. exact En.
+Qed.
+
+Lemma nan_table_distinct heur lbl T :
+  (exists f g v w, In (f, v) (pre lbl T) /\ In (g, w) (pre lbl T) /\ ~ v == w) -> nan_table heur lbl T = false.
+Proof.
+  intros [f [g [v [w [Hf [Hg Hvw]]]]]]. destruct (nan_table heur lbl T) eqn:En; [|reflexivity]. exfalso.
+  apply nan_table_true in En. destruct En as [_ [_ He]]. apply Hvw.
+  assert (Hin : forall f v, In (f, v) (pre lbl T) -> In v (map snd (pre lbl T))) by (intros f0 v0 H0; apply in_map_iff; exists (f0, v0); auto).
+  pose proof (qmin_le _ _ (Hin _ _ Hf)). pose proof (qmax_ge _ _ (Hin _ _ Hf)).
+  pose proof (qmin_le _ _ (Hin _ _ Hg)). pose proof (qmax_ge _ _ (Hin _ _ Hg)).
+  rewrite <- He in H0, H2. apply Qle_antisym; eapply Qle_trans; eassumption.
+Qed.
+
+(* ---------- checkers over cells ---------- *)
+Lemma unwrap_some obs : forall o, unwrap obs = Some o -> obs = some_cells o.
+Proof.
+  induction obs as [|[f [v|]] t IH]; intros o H; cbn [unwrap] in H.
+  - injection H as <-. reflexivity.
+  - destruct (unwrap t) as [r|]; [|discriminate]. injection H as <-. cbn. f_equal. apply IH. reflexivity.
+  - discriminate.
+Qed.
+Lemma unwrap_some_cells l : unwrap (some_cells l) = Some l.
+Proof. induction l as [|[f v] l IH]; [reflexivity|]. cbn. unfold some_cells in IH. rewrite IH. reflexivity. Qed.
+Lemma all_nan_iff l : all_nan l = true <-> forall f c, In (f, c) l -> c = None.
+Proof.
+  unfold all_nan. rewrite forallb_forall. split.
+  - intros H f c Hin. specialize (H (f, c) Hin). cbn in H. destruct c; [discriminate|reflexivity].
+  - intros H [f c] Hin. cbn. rewrite (H f c Hin). reflexivity.
+Qed.
+Lemma all_nan_nan_cells l : all_nan (nan_cells l) = true.
+Proof. apply all_nan_iff. intros f c H. apply in_nan_cells in H. apply H. Qed.
+Lemma unwrap_nan_cells l : l <> [] -> unwrap (nan_cells l) = None.
+Proof. destruct l as [|[f v] l]; [congruence|reflexivity]. Qed.
+
+Lemma medians_keys lbl T f : In f (map fst (medians lbl T)) <-> exists t s, In t T /\ label_partner lbl t = Some (f, s).
+Proof.
+  unfold medians. rewrite group_median_keys, in_map_iff. split.
+  - intros [[g s] [Hg Hin]]. cbn in Hg. subst g. apply final_ranking_in in Hin. destruct Hin as [t Ht]. exists t, s. exact Ht.
+  - intros [t [s Ht]]. exists (f, s). split; [reflexivity|]. apply final_ranking_in. exists t. exact Ht.
+Qed.
+
+Theorem cells_okb_sound tol heur lbl T obs : cells_okb tol heur lbl T obs = true ->
+  NoDup (map fst obs)
+  /\ (forall f, In f (map fst obs) <-> exists t s, In t T /\ label_partner lbl t = Some (f, s))
+  /\ (if nan_table heur lbl T then forall f c, In (f, c) obs -> c = None
+      else exists o, obs = some_cells o /\ adjacent_desc tol (map snd o)
+                     /\ forall f x, In (f, x) o -> Qabs (x - expected heur lbl T f) <= tol).
+Proof.
+  unfold cells_okb. destruct (nan_table heur lbl T).
+  - rewrite !andb_true_iff, nodupn_iff, !subsetn_iff, all_nan_iff. intros [[[Hnd H1] H2] Hn].
+    split; [exact Hnd|]. split; [|exact Hn]. intros f. rewrite <- medians_keys. split; [apply H1|apply H2].
+  - destruct (unwrap obs) as [o|] eqn:E; [|discriminate]. intros H. apply unwrap_some in E. subst obs.
+    apply singles_okb_sound in H. destruct H as [Hnd [Hk [Hs Hv]]]. rewrite some_cells_fst.
+    split; [exact Hnd|]. split; [exact Hk|]. exists o. auto.
+Qed.
+
+Theorem cells_model_ok heur lbl T : cells_okb 0 heur lbl T (singles_cells heur lbl T) = true.
+Proof.
+  unfold cells_okb, singles_cells. destruct (nan_table heur lbl T).
+  - rewrite !andb_true_iff, nodupn_iff, !subsetn_iff, nan_cells_fst. pose proof (pre_fst_perm lbl T) as Hp.
+    repeat split.
+    + eapply Permutation_NoDup; [symmetry; exact Hp|apply group_median_nodup].
+    + intros x Hx. eapply Permutation_in; eassumption.
+    + intros x Hx. eapply Permutation_in; [symmetry; exact Hp|exact Hx].
+    + apply all_nan_nan_cells.
+  - rewrite unwrap_some_cells. apply singles_model_ok.
+Qed.
+
+Lemma feature_store_fst l :
+  map fst (feature_store l) = flat_map (fun n => if contains SEP_ n then constituents n else []) (map fst l).
+Proof.
+  unfold feature_store. induction l as [|[f s] l IH]; [reflexivity|]. cbn [flat_map map fst snd].
+  rewrite map_app, IH. f_equal. destruct (contains SEP_ f); [|reflexivity]. rewrite map_map. cbn [fst]. apply map_id.
+Qed.
+
+Lemma aggregated_keys_names l l' : map fst l = map fst l' -> map fst (aggregated l) = map fst (aggregated l').
+Proof. intros H. unfold aggregated. rewrite !group_median_fst, !feature_store_fst, H. reflexivity. Qed.
+
+Theorem aggregated_cells_model_ok heur lbl T :
+  aggregated_cells_okb 0 (singles_cells heur lbl T) (aggregated_cells heur lbl T) = true.
+Proof.
+  unfold aggregated_cells_okb, singles_cells, aggregated_cells. destruct (nan_table heur lbl T) eqn:En.
+  - apply nan_table_true in En. destruct En as [_ [Hne _]]. rewrite (unwrap_nan_cells _ Hne).
+    rewrite !andb_true_iff, nodupn_iff, !subsetn_iff, !all_nan_nan_cells, nan_cells_fst.
+    assert (Hk : map fst (aggregated (map (fun r : name * option Q => (fst r, 0)) (nan_cells (pre lbl T)))) = map fst (aggregated (pre lbl T))).
+    { apply aggregated_keys_names. rewrite map_map. cbn [fst]. apply nan_cells_fst. }
+    rewrite Hk. repeat split; try apply incl_refl. apply aggregated_spec.
+  - rewrite !unwrap_some_cells. apply aggregated_model_ok.
+Qed.
+
+Theorem aggregated_cells_okb_sound tol final obs : aggregated_cells_okb tol final obs = true ->
+  (exists f o, final = some_cells f /\ obs = some_cells o /\ aggregated_okb tol f o = true)
+  \/ ((forall g c, In (g, c) final -> c = None) /\ (forall g c, In (g, c) obs -> c = None) /\ NoDup (map fst obs) /\
+      forall k, In k (map fst obs) <-> In k (map fst (aggregated (map (fun r => (fst r, 0)) final)))).
+Proof.
+  unfold aggregated_cells_okb. destruct (unwrap final) as [f|] eqn:Ef.
+  - destruct (unwrap obs) as [o|] eqn:Eo; [|discriminate]. intros H. left. exists f, o.
+    apply unwrap_some in Ef. apply unwrap_some in Eo. auto.
+  - rewrite !andb_true_iff, !all_nan_iff, nodupn_iff, !subsetn_iff. intros [[[[H1 H2] H3] H4] H5]. right.
+    repeat split; try assumption; [apply H4|apply H5].
+Qed.
+
 (* ---------- non-vacuity ---------- *)
 Example ex_T : list triplet :=
   [ ([97; 32; 65; 78; 68; 32; 98; 45; 40; 51; 59; 32; 57; 41]%N, [121; 45; 40; 50; 59; 32; 57; 41]%N, 1 # 2);   (* "a AND b-(3; 9)", "y-(2; 9)" *)
@@ -731,15 +924,19 @@ Example ex_T : list triplet :=
     ([97; 32; 65; 78; 68; 32; 99]%N, [121]%N, 5 # 4);                                                          (* "a AND c", "y" *)
     ([121]%N, [121]%N, 2 # 1);                                                                                 (* "y", "y" *)
     ([97]%N, [98]%N, 5 # 1) ].                                                                                 (* "a", "b": no label *)
-Definition redq (l : list (name * Q)) : list (name * Q) := map (fun r => (fst r, Qred (snd r))) l.
+Definition redq (l : list (name * option Q)) : list (name * option Q) := map (fun r => (fst r, option_map Qred (snd r))) l.
 (* heuristic "MI", label "y", interaction order 2: y -> 1, "a AND c" -> 1/3, "a AND b-(3; 9)" -> 0; a -> 1/6, c -> 1/3, b -> 0 *)
 Example ex_summary :
   (redq (fst (summary [77; 73]%N [121]%N 2 ex_T)), option_map redq (snd (summary [77; 73]%N [121]%N 2 ex_T))) =
-  ([([121]%N, 1); ([97; 32; 65; 78; 68; 32; 99]%N, 1 # 3); ([97; 32; 65; 78; 68; 32; 98; 45; 40; 51; 59; 32; 57; 41]%N, 0)],
-   Some [([97]%N, 1 # 6); ([99]%N, 1 # 3); ([98]%N, 0)]).
+  ([([121]%N, Some 1); ([97; 32; 65; 78; 68; 32; 99]%N, Some (1 # 3)); ([97; 32; 65; 78; 68; 32; 98; 45; 40; 51; 59; 32; 57; 41]%N, Some 0)],
+   Some [([97]%N, Some (1 # 6)); ([99]%N, Some (1 # 3)); ([98]%N, Some 0)]).
 Proof. vm_compute. reflexivity. Qed.
 (* a non-MI heuristic keeps the medians; order 1 writes no aggregated table *)
 Example ex_summary_plain :
   (redq (fst (summary [65; 66]%N [121]%N 1 ex_T)), snd (summary [65; 66]%N [121]%N 1 ex_T)) =
-  ([([121]%N, 2); ([97; 32; 65; 78; 68; 32; 99]%N, 1); ([97; 32; 65; 78; 68; 32; 98; 45; 40; 51; 59; 32; 57; 41]%N, 1 # 2)], None).
+  ([([121]%N, Some 2); ([97; 32; 65; 78; 68; 32; 99]%N, Some 1); ([97; 32; 65; 78; 68; 32; 98; 45; 40; 51; 59; 32; 57; 41]%N, Some (1 # 2))], None).
+Proof. vm_compute. reflexivity. Qed.
+(* one listed feature under an MI heuristic: the code's 0/0, a NaN cell *)
+Example ex_summary_nan :
+  summary [77; 73]%N [121]%N 2 [([102]%N, [121]%N, 1 # 2)] = ([([102]%N, None)], Some []).
 Proof. vm_compute. reflexivity. Qed.
